@@ -346,4 +346,4 @@ def st_case(ctx: Ctx):
     )
 
 
-PARTS = [Part("cases", check_case, strategy=st_case, quick=2000, thorough=100000)]
+PARTS = [Part("cases", check_case, strategy=st_case, quick=4000, thorough=120000)]
